@@ -75,7 +75,7 @@ func (a *Arguments) Get(argumentIndex int) reflect.Value {
 		switch e.Type() {
 		case NodeUnderscore:
 			if a.pipedVal == nil {
-				a.Panicf("pipe slot marker ('_') used as argument, but no value is piped into the call")
+				e.errorf("pipe slot marker ('_') used as argument, but no value is piped into the call")
 			}
 			return *a.pipedVal
 		default:
